@@ -370,6 +370,11 @@ func (fr *frame) applyContract(fc *FuncContract, key string, callee *ssa.Functio
 		}
 	} else if fc.Pure {
 		// declared pure: no effect on modelled state (part of the purity assumption)
+	} else if fc.NoEffects {
+		s.Trusted[key+" assumed to have no effect on modelled heap state"] = true
+		for _, g := range fc.Sets {
+			mods = append(mods, "H:"+g.Name)
+		}
 	} else if callee != nil {
 		mods = s.P.ModsOf(callee)
 	} else {
@@ -671,7 +676,7 @@ func (fr *frame) modelled(key string, args []TV, resT types.Type, st *State) (TV
 	case "bytes.Compare":
 		s.Trusted["bytes.Compare (0 iff content equal)"] = true
 		r := s.fresh("cmp", "Int")
-		s.assume(st, fmt.Sprintf("(and (>= %s (- 1)) (<= %s 1) (= (= %s 0) (= (cont %s) (cont %s))) (= (< %s 0) (slt (cont %s) (cont %s))))", r, r, r, args[0].T, args[1].T, r, args[0].T, args[1].T))
+		s.assume(st, fmt.Sprintf("(and (>= %s (- 1)) (<= %s 1) (= (= %s 0) (= (cont %s) (cont %s))) (= (< %s 0) (slt (cont %s) (cont %s))) (= (> %s 0) (slt (cont %s) (cont %s))))", r, r, r, args[0].T, args[1].T, r, args[0].T, args[1].T, r, args[1].T, args[0].T))
 		return TV{T: r, S: "Int", GT: resT}, true
 	case "strings.Compare":
 		r := s.fresh("cmp", "Int")
